@@ -463,7 +463,7 @@ func (e *omegaEnv) directMutation(in ssa.Instruction, sum map[*ssa.Function]stri
 			return ""
 		}
 		if rootedInLocal(x.Addr) {
-			if inOmega && throughField(x.Addr, "Addition") {
+			if inOmega && throughField(x.Addr, "Addition") && rootIsParamCell(x.Addr) {
 				return "store to returned context " + exprStr(x.Addr, shapeOpts)
 			}
 			return ""
@@ -668,7 +668,7 @@ func (e *omegaEnv) errorExits(f *ssa.Function) []mutation {
 			res := retResults(r)
 			if len(res) == 1 {
 				if flds := structLiteralFields(res[0]); flds != nil {
-					if er, ok := flds["ExitReason"]; ok && exprStr(er, exprOpts{}) == "PVM.ExitPanic" {
+					if er, ok := flds["ExitReason"]; ok && exprStr(er, exprOpts{}) == e.c.constStr("PVM", "ExitPanic") {
 						out = append(out, mutation{in, "PANIC"})
 					}
 				}
@@ -1105,4 +1105,34 @@ func (e *omegaEnv) ruleRegistries(rule string) {
 			c.Check(names[k], rule, fmt.Sprintf("PVM.hostCallName[%d]", k), token.NoPos, "registered identifier has a name", "registered host-call identifier has no entry in hostCallName")
 		}
 	}
+}
+
+// constStr renders the exact value of a package-level constant the way the
+// canonical renderer prints constants.
+func (c *Ctx) constStr(rel, name string) string {
+	if o, ok := c.Obj(rel, name).(*types.Const); ok {
+		return o.Val().ExactString()
+	}
+	return "<unresolved " + name + ">"
+}
+
+// rootIsParamCell: the address is rooted in the local cell that holds a
+// by-value parameter (the host call's own OmegaInput copy).
+func rootIsParamCell(addr ssa.Value) bool {
+	v := addr
+	for i := 0; i < 30; i++ {
+		switch x := v.(type) {
+		case *ssa.FieldAddr:
+			v = x.X
+		case *ssa.IndexAddr:
+			v = x.X
+		case *ssa.Alloc:
+			iv := initStore(x)
+			_, isParam := iv.(*ssa.Parameter)
+			return isParam
+		default:
+			return false
+		}
+	}
+	return false
 }
